@@ -111,6 +111,12 @@ def ios_text(ios, mod):
             objs.append("obj%d" % i)
         out.append("")
         body = " | ".join(objs)
+    elif getattr(ios, "composed", 0) == "mixed" and len(ios.rows) >= 2:
+        # a named set and objects written in place, in one union
+        h = (len(ios.rows) + 1) // 2
+        out.append("FTa FS ::= { %s }" % " | ".join("{ %s IDENTIFIED BY %s }" % (tn, idtext(ios, idv)) for idv, tn in ios.rows[:h]))
+        out.append("")
+        body = " | ".join(["FTa"] + ["{ %s IDENTIFIED BY %s }" % (tn, idtext(ios, idv)) for idv, tn in ios.rows[h:]])
     elif getattr(ios, "composed", 0) and len(ios.rows) >= 2:
         # the set is the union of two or three named sets
         k = min(ios.composed, len(ios.rows))
@@ -223,7 +229,7 @@ def run(tier, seed):
         if r2.random() < 0.4:
             # a second object with the type of an earlier one: the rows share the member of the generated union
             ios.rows.append((newid(), r2.choice(ios.rows)[1]))
-        ios.composed = r2.choice([0, 0, 2, 3]) if not ios.via_objects else 0
+        ios.composed = r2.choice([0, 0, 2, 3, "mixed"]) if not ios.via_objects else 0
         ios.blob = r2.random() < 0.3
         if ios.blob:
             # a row whose complete encoding is exactly n * 16K octets long (and one octet either side)
@@ -467,7 +473,9 @@ def run(tier, seed):
             chk.evaluations += 1
             chk.seen((ms, kind, x))
             rk = mod.resolve(mod.types[tn]).kind
-            key = {"case": kind, "idkind": idk, "rowkind": rk, "ext_set": ios.ext_set}
+            key = {"case": kind, "idkind": idk, "rowkind": rk, "ext_set": ios.ext_set, "composition": str(ios.composed)}
+            if ios.composed == "mixed":
+                key["row_in_place"] = (idv, tn) in ios.rows[(len(ios.rows) + 1) // 2:]
             replay = {"module": text, "row_type": tn, "ident": str(idv), "input_hex": x.hex(), "value": gen.value_repr(fv, 800), "other_row": tj}
             what = "Frame(ident=%s -> %s)%s" % (idtext(ios, idv), tn, (" carrying a value of %s" % tj) if tj else "")
             if safety(r, what, key, replay):
